@@ -56,7 +56,7 @@ var cfg atomic.Pointer[Config] // written only between runs
 func Install(c *Config) {
 	cfg.Store(c)
 	regMu.Lock()
-	nextSlot = 0
+	usedSlots = map[int64]bool{}
 	streams = nil
 	regMu.Unlock()
 	statMu.Lock()
@@ -386,10 +386,10 @@ func cmpOrd[T int | int64 | uint64 | float64](a, b T) int {
 const Quantum = time.Duration(1 << 20)
 
 var (
-	regMu    sync.Mutex // taken only when a stream (or a pool) is created
-	nextSlot int64
-	streams  []*Stream
-	pools    []*Pool
+	regMu     sync.Mutex // taken only when a stream (or a pool) is created
+	usedSlots = map[int64]bool{}
+	streams   []*Stream
+	pools     []*Pool
 )
 
 // Streams returns the streams created since Install (call it after the run).
@@ -430,13 +430,16 @@ func NewStream(name string) *Stream {
 	if c == nil || !c.Sched {
 		return nil
 	}
+	// The slot is a function of the name, not of the order in which streams happen to be registered (two
+	// goroutines made runnable by the same event may register theirs in either order). Only a hash collision
+	// (about 0.5 % of runs with a hundred streams) falls back to probing.
+	slot := int64(1 + hashString(0x51075, name)%uint64(Quantum-2))
 	regMu.Lock()
-	nextSlot++
-	slot := nextSlot
-	regMu.Unlock()
-	if time.Duration(slot) >= Quantum {
-		panic("simrt: too many streams")
+	for usedSlots[slot] {
+		slot = 1 + slot%int64(Quantum-2)
 	}
+	usedSlots[slot] = true
+	regMu.Unlock()
 	st := &Stream{r: rng{hashString(mix(c.Seed, 0x5eed), name)}, slot: time.Duration(slot), Name: name}
 	regMu.Lock()
 	streams = append(streams, st)
